@@ -517,6 +517,7 @@ func init() {
 		ruleFCShrink(r)
 		ruleFCLocked(r)
 		ruleFCClient(r)
+		ruleFCListNonNil(r)
 		// the collectors remove and truncate files the cache may have lent out
 		r.support([]string{"gc-not-current", "header-before-remove"})
 	},
